@@ -11,9 +11,10 @@ import common
 import pyref
 import tlcrun
 
-PLANS = {"quick": [("e2e3", "e2e", 3, 4500), ("e2et4", "e2et", 4, 1500)],
+PLANS = {"quick": [("e2e3", "e2e", 3, 4500), ("e2et4", "e2et", 4, 1500), ("e2eb4", "e2eb", 4, 1500)],
          # (budget 4 of the full family has > 15M derivation states: seeded random walks instead)
-         "thorough": [("e2e3", "e2e", 3, None), ("e2eR5", "e2e", 5, 60000, 40000), ("e2et5", "e2et", 5, 40000)]}
+         "thorough": [("e2e3", "e2e", 3, 60000), ("e2eR5", "e2e", 5, 30000, 40000), ("e2et5", "e2et", 5, 20000),
+                      ("e2eb4", "e2eb", 4, 20000)]}
 OPS = ("Select", "Where", "SelectMany")
 
 TYPED_SOURCE = '''
@@ -74,6 +75,8 @@ def run(prop, tier):
         rep.add_tlc(st)
         total = len(got)
         got = [p for p in got if chain_steps_m(p) and not any(mentions(l, "ds") for _, l in chain_steps_m(p))]
+        if fam == "e2eb":      # the family exists for its called lambdas
+            got = [p for p in got if "(lambda a:" in codec.src(p)]
         if keep is not None:
             got = common.subsample_stratified(got, keep, salt=name)
         fams[name] = {"generated": total, "fluent_chains_replayed": len(got), "budget": budget}
